@@ -216,6 +216,11 @@ class Gen:
         else:
             kw["languages"] = rnd.sample(self.language_order[:30], 2)
             kw["region"] = rnd.choice(["US", "CA", "IN", "BE", "001", "XX", "GB", "CH"])
+        # constructor flags are part of a valid configuration too (DateDataParser only; parse() has no such arguments)
+        if rnd.random() < 0.2:
+            kw["use_given_order"] = True
+        if rnd.random() < 0.15:
+            kw["try_previous_locales"] = True
         return kw
 
 
